@@ -736,5 +736,26 @@ Definition xz_decode_c (fx : xzfix) (multi : bool) (src : list Z) : outcome (lis
   xz_decode xz_check_bytes xz_blockdec fx multi src.
 
 (* ------------------------------------------------------------------------------------------- *)
-(* entry points for the driver (current code = xz_fixed) *)
-Definition xz_index_of_file_sizes (blocks : list (list Z)) : list Z := map (fun b => zlen b) blocks.
+(* entry points for the driver: options as plain numbers (filter ids as in the file format) *)
+Fixpoint xz_filters_of_ids (fs : list (Z * Z)) : option (list (fkind * Z)) :=
+  match fs with
+  | [] => Some []
+  | (id, p) :: t =>
+      match fkind_of_id id, xz_filters_of_ids t with
+      | Some k, Some r => Some ((k, p) :: r)
+      | _, _ => None
+      end
+  end.
+
+Definition xz_write_entry (fx : xzfix) (check : Z) (bs : option Z) (filters : list (Z * Z)) (dict : Z)
+    (parts payloads : list (list Z)) : outcome (list Z) :=
+  match xz_filters_of_ids filters with
+  | Some fs => xz_write fx (mkXzopts check bs fs dict) parts payloads
+  | None => Err E_OTHER
+  end.
+
+(* uncompressed sizes of the blocks the writer cuts (C18) *)
+Definition xz_block_sizes_entry (fx : xzfix) (bs : option Z) (dict : Z) (parts : list (list Z)) : outcome (list Z) :=
+  do o <- xzw_new (mkXzopts 0 bs [] dict);
+  do blocks <- xz_blocks_of fx (xo_block_size o) parts;
+  Ok (map (fun b => zlen b) blocks).
